@@ -18,7 +18,7 @@ type Options struct {
 	repo, stdlib, prop, tier, evidence, replayDir, known, keep, extra string
 	timeout, workers, nsolvers                                      int
 	funcs                                                           string
-	verbose                                                         bool
+	verbose, names                                                  bool
 	levelNote                                                       string
 }
 
@@ -44,6 +44,7 @@ func main() {
 	fs.IntVar(&o.nsolvers, "solvers", 2, "portfolio width")
 	fs.StringVar(&o.funcs, "funcs", "", "comma-separated pkg.func[label] list (instead of -prop)")
 	fs.BoolVar(&o.verbose, "v", false, "verbose")
+	fs.BoolVar(&o.names, "names", false, "list every obligation")
 	fs.Parse(os.Args[2:])
 	if o.timeout == 0 {
 		if o.tier == "thorough" {
@@ -652,6 +653,12 @@ func report(o *Options, w *World, results []*FuncResult, jobs []*job, start time
 	writeEvidence(o, &ev)
 	fmt.Printf("govc: property=%s tier=%s obligations=%d discharged=%d instances=%d functions=%d wall=%.1fs solver=%.1fs\n",
 		o.prop, o.tier, nObl, discharged, instances, len(funcs), time.Since(start).Seconds(), solverTime)
+	if o.names {
+		for _, n := range order {
+			g := groups[n]
+			fmt.Printf("  %-70s inst=%-3d failed=%d  %s\n", g.name, g.instances, len(g.failed), g.src)
+		}
+	}
 	if o.verbose {
 		var gs []*group
 		for _, n := range order {
